@@ -80,6 +80,10 @@ CHECKS = {
    "Every request history up to depth 3 (thorough 4) over {insert 2, insert 3, update existing+unknown, delete existing+unknown, delete all} on real in-process clusters of 1-3 nodes talking RPC over loopback, MaxShardPointCount {1,2}, 3 (thorough 8) placement seeds, each request entering through the next live node in rotation, with all servers up and with each server stopped (connections dropped) from each step on (8.4k histories); after every request, through every live node: each id found exactly once iff stored, filter search over limit x offset x sort (<= limit, no duplicates, results are stored points, globally sorted, exact when the limit covers the matches), flat search globally ordered by hybrid score, update/delete failure lists and their message.",
    "ids unique per collection; nothing claimed when the user's routing node is down; a search may fail as a whole when a shard server is down; offset heuristic not claimed exact",
    "exhaustive enumeration of request histories x deployments x single-server faults on real nodes vs reference model", "DESIGN.md §4 C17"),
+ "C14": (True, "faultx", "fault_enumeration",
+   "Enumeration of configurations and faults on real in-process nodes (RPC over loopback): all 42 ordered pairs of different non-empty server sets over {A,B,C} x placement seeds x the order in which the nodes run their start-up Sync (permutations and fully concurrent), data created through the old cluster (4 users, 8 shard files); for every world the receive handler (verif fault hook at the top of RPCSendShard) fails at chunk k of the t-th transfer, optionally followed by truncating the partial destination file to 0 / 1 / size-1 bytes, then all nodes restart and synchronise twice; synthetic shard files around multiples of the 8 MiB chunk size with a failure at every chunk index. Oracle: nothing lost after an interrupted run; afterwards every record and shard file on exactly its RendezvousHash owner, byte-identical (xxhash + length), every point readable through every new node.",
+   "a killed sender = its Sync returning an error; a killed receiver = the file state after chunk k; RpcRetries 1; real kill -9 inside write(2) replaced by torn-file enumeration",
+   "exhaustive enumeration of configurations x fault points (chunk indices, torn files) on the real synchronisation code", "DESIGN.md §4 C14"),
 }
 
 props = [json.loads(l) for l in open(os.path.join(HERE, "properties.jsonl"))]
